@@ -114,6 +114,23 @@ def canon_parsed(result_dict):
     return json.dumps(d, sort_keys=True)
 
 
+def canon_json(text, sandbox=None):
+    """canonical form of the JSON a run writes next to its report (key order and sandbox paths removed)"""
+    try:
+        t = json.dumps(json.loads(text), sort_keys=True)
+    except ValueError:
+        t = 'unparsable:' + text
+    if sandbox:
+        t = t.replace(sandbox, '$SB')
+    return t
+
+
+def json_beside(report_path):
+    """where GEOPHIRES writes the JSON that belongs to a report: same directory, same stem"""
+    d, name = os.path.split(str(report_path))
+    return os.path.join(d, os.path.splitext(name)[0] + '.json')
+
+
 def sha(s):
     return hashlib.sha256(s.encode('utf-8', 'replace')).hexdigest()
 
@@ -131,7 +148,7 @@ def _ref_compute(args):
         os.chdir(os.path.join(d, 'cwd'))
         sys.argv = ['ref']
         from pathlib import Path
-        out = {'outcome': 'raised', 'exc': None, 'report': None, 'parsed': None}
+        out = {'outcome': 'raised', 'exc': None, 'report': None, 'parsed': None, 'json': None}
         if content is None:
             p = os.path.join(d, 'missing.txt')
         else:
@@ -153,6 +170,11 @@ def _ref_compute(args):
                 with open(r.output_file_path) as f:
                     out['report'] = canon_report(f.read(), d)
                 out['parsed'] = canon_parsed(r.result)
+                try:
+                    with open(json_beside(r.output_file_path), encoding='utf-8') as f:
+                        out['json'] = canon_json(f.read(), d)
+                except OSError:
+                    out['json'] = None
             out['outcome'] = 'ok'
         except BaseException as e:  # noqa: BLE001
             out['exc'] = type(e).__name__
@@ -164,7 +186,7 @@ def _ref_compute(args):
 
 def reference(kind, content, refdir, stats):
     key = sha(f'{kind}\0{content}')
-    path = os.path.join(refdir, key + '.json')
+    path = os.path.join(refdir, key + '.v2.json')
     try:
         with K._real['open'](path) as f:
             stats['ref_hits'] = stats.get('ref_hits', 0) + 1
@@ -976,6 +998,9 @@ class Exec:
                 self.result_digest.update(sha(cr).encode())
                 if kd == 'geo':
                     self.check_parser(report)
+                    jp_ = json_path if entry in ('cli', 'main_argv') else (json_beside(result.output_file_path) if result is not None else None)
+                    if jp_:
+                        self.check_json(entry, report, jp_, exp)
                 elif kd == 'hip' and result is not None and isinstance(getattr(result, 'result', None), dict):
                     self.check_hip_parser(report, result.result)
             elif parsed is not None:
@@ -990,6 +1015,36 @@ class Exec:
         else:
             self.result_digest.update(f'{outcome}'.encode())
         # (reports stay where they were written: later operations run against a directory that already holds them)
+
+    def check_json(self, entry, report, jp, exp):
+        """the JSON written next to the report: the same for every entry point and history (C20 / C08), and carrying the
+        quantities the report prints (C10, last clause; per-report invariant)"""
+        try:
+            with K._real['open'](jp, encoding='utf-8') as f:
+                raw = f.read()
+        except OSError:
+            if exp.get('json') is not None and entry not in ('cli', 'main_argv'):      # (the CLI's missing_json is judged above)
+                self.V('C08', 'history_dependent_result', f'{entry}_json', 'no JSON next to the report although a fresh process writes one')
+            return
+        cj = canon_json(raw, self.sb)
+        self.parse_stats['json_files'] = self.parse_stats.get('json_files', 0) + 1
+        if exp.get('json') is not None and cj != exp['json']:
+            prop, cls = ('C20', 'entrypoint_report_diff') if entry in ('cli', 'main_argv') else ('C08', 'history_dependent_result')
+            self.V(prop, cls, f'{entry}_json', 'the JSON next to the report differs from the same content run alone in a fresh process: '
+                   + _first_diff(cj, exp['json']))
+        self.result_digest.update(sha(cj).encode())
+        try:
+            jobj = json.loads(raw)
+        except ValueError as e:
+            self.V('C10', 'json_mismatch', 'unparsable', f'the JSON next to the report does not parse: {str(e)[:120]}')
+            return
+        if 'unit_spellings' not in _state:
+            _state['unit_spellings'] = tokenizer.unit_spellings()
+        problems, st = tokenizer.check_json(report, jobj, _state['unit_spellings'])
+        for kkey in st:
+            self.parse_stats[kkey] = self.parse_stats.get(kkey, 0) + st[kkey]
+        for cls, cause, detail in problems[:3]:
+            self.V('C10', cls, cause, detail)
 
     def check_hip_parser(self, report, parsed):
         """C10 for the HIP-RA-X client: every 'label: number [unit]' line of the report against the returned dict (independent
